@@ -25,8 +25,9 @@ SURF_TYPES = {
 COMMON_SURF = ["px", "py", "pz", "so", "cz", "cx", "c/z", "s", "p", "cy", "sx"]
 
 
-# xM shortcuts cannot be written at all on the current tree (C08 finding F-C08-multiply-format):
-# generators of the other properties leave them out
+# xM shortcuts: written since 4296afb in surface cards; in the data block an xM token is still read as a word (an
+# open C08 finding), so the default stays off and only surface cards get them, on request
+# (gen_problem option multiply_surfaces; no random draw is added when the option is not set)
 MULTIPLY_OK = False
 
 
@@ -124,7 +125,7 @@ def glue_first(items):
 
 
 # ----------------------------------------------------------------------------- numeric lists
-def gen_numlist(rng, n, positive=True, ints=False, shortcuts=True, allow_jump=True):
+def gen_numlist(rng, n, positive=True, ints=False, shortcuts=True, allow_jump=True, multiply=False):
     """n logical entries -> (items, values) ; values: float | 'J'"""
     items = []
     vals = []
@@ -154,7 +155,7 @@ def gen_numlist(rng, n, positive=True, ints=False, shortcuts=True, allow_jump=Tr
             items.append(T("%di" % k))
             items.append(T("%g" % b))
             vals += [a + (b - a) * j / (k + 1) for j in range(1, k + 1)] + [b]
-        elif shortcuts and MULTIPLY_OK and not ints and vals and vals[-1] != "J" and r < 0.36:
+        elif shortcuts and (MULTIPLY_OK or multiply) and not ints and vals and vals[-1] != "J" and r < 0.36:
             m = rng.choice([2, 3, 10])          # real multipliers (0.5m) are a C12 finding; see gen_core
             items.append(T("%gm" % m))
             vals.append(vals[-1] * m)
@@ -302,7 +303,7 @@ def gen_problem(rng, opts=None):
             card.append(T(rng.choice(tr_nums)))
         card.append(T(mn if rng.random() < 0.7 else mn.upper()))
         it, vals = gen_numlist(rng, cnt, positive=False, shortcuts=o["shortcuts"] and rng.random() < 0.3,
-                               allow_jump=False)
+                               allow_jump=False, multiply=bool(o.get("multiply_surfaces")))
         card += it
         sconst[s] = vals
         surfaces.append(card)
